@@ -307,8 +307,10 @@ func CodeQuoteBegin(l *lexer) stateFn {
 		for ; r == '\t' || r == '\n' || r == ' '; r = l.peek() {
 			l.next()
 		}
-		if l.acceptWord("%}") {
-			vend := l.end - 2
+		if strings.HasPrefix(l.input[l.end:], "%}") {
+			vend := l.end
+			l.next()
+			l.next()
 			l.emitValue(CodeQuote, l.input[vstart:vend])
 			break
 		}
